@@ -106,7 +106,19 @@ func (w wrapC) Error() string { return w.e.Error() }
 func (w wrapC) Cause() error  { return w.e }
 
 // buildErr constructs the handler error described by e.
+// curSentinel is the application's shared coded error of the current run (runs
+// are sequential within a worker; reset by newSentinel at the start of each).
+var curSentinel error
+
+func newSentinel() { curSentinel = drpcerr.WithCode(errors.New(sentinelText), 5) }
+
 func buildErr(e ErrSpec) error {
+	switch e.Style {
+	case 4:
+		return curSentinel
+	case 5:
+		return drpcerr.WithCode(curSentinel, 9)
+	}
 	var err error = errors.New(e.Msg)
 	if e.Style == 3 {
 		// a handler passing on an end-of-stream it met somewhere ("...: EOF")
